@@ -31,7 +31,8 @@ elif [ -n "$RS" ]; then
 else
   echo "$ID$SFX: no demo found"; exit 0
 fi
-suite=$(timeout 1800 cargo nextest run --build-jobs $J --workspace --no-fail-fast --offline -E "not binary(/demo_/)" 2>&1 | grep -E "Summary" | sed 's/.*Summary *\[[^]]*\] *//')
+FILTER=(); [ -n "$RS" ] && FILTER=(-E "not binary(/demo_/)")
+suite=$(timeout 1800 cargo nextest run --build-jobs $J --workspace --no-fail-fast --offline "${FILTER[@]}" 2>&1 | grep -E "Summary" | sed 's/.*Summary *\[[^]]*\] *//')
 mkdir -p "$DST"; cp seeded_patch.diff "$DST/patch.diff"
 [ -n "$RS" ] && cp "$RS" "$DST/"
 if [ -n "$SH" ]; then
